@@ -161,6 +161,17 @@ def oracle(cell: dict, got: dict) -> str | None:
     return None
 
 
+def compare(ans: dict, got: dict):
+    """(model's, implementation's) action / outcome class / Retry delay for one cell"""
+    want_oc = got["pkind"] if ans["outcome"] == "precond" else ans["outcome"]
+    want_delay = None
+    if want_oc == "retry":
+        want_delay = PRECOND_DELAY if ans["outcome"] == "precond" else int(ans["delay"])
+    model = {"action": ans["action"], "outcome": want_oc, "delay": want_delay}
+    mine = {"action": got["action"], "outcome": got["outcome"]["c"], "delay": got["outcome"].get("delay")}
+    return model, mine
+
+
 def run(tier: str) -> int:
     ck = Check("C07", tier)
     ck.trusted = [
@@ -179,6 +190,8 @@ def run(tier: str) -> int:
         "the load itself succeeds (API faults are C09's subject)",
     ]
     ck.prove(extractors=["RfDefaults"])
+    if tier == "thorough":
+        ck.leanchecker()
 
     all_cells = list(cells())
     work = []
@@ -214,12 +227,7 @@ def run(tier: str) -> int:
         if bad:
             ck.violate(case, bad)
         if ans is not None:
-            want_oc = got["pkind"] if ans["outcome"] == "precond" else ans["outcome"]
-            want_delay = None
-            if want_oc == "retry":
-                want_delay = PRECOND_DELAY if ans["outcome"] == "precond" else int(ans["delay"])
-            model = {"action": ans["action"], "outcome": want_oc, "delay": want_delay}
-            mine = {"action": a, "outcome": oc, "delay": got["outcome"].get("delay")}
+            model, mine = compare(ans, got)
             if model != mine:
                 ck.disagree({"cell": cell, "variant": variant, "idx": idx, "spec": got["spec"]}, model, mine,
                             "table-cell: action/outcome-class/retry-delay")
@@ -247,7 +255,13 @@ def replay(path: str) -> int:
         if d.get("kind") == "correspondence":
             case = d["case"]
             got = observe(case["cell"], case["variant"], case["idx"])
-            print("replay (model/implementation):", json.dumps(case["cell"]), case["variant"], "impl ->",
-                  got["action"], got["outcome"], "model ->", d["model"])
+            ans = LeanDriver("C07").ask([{"op": "cell", "flags": got["written"], "precond": case["cell"]["precond"],
+                                          "sit": case["cell"]["sit"]}])[0]
+            model, mine = compare(ans, got)
+            print("replay (model/implementation):", json.dumps(case["cell"]), case["variant"], "impl ->", mine,
+                  "model ->", model, "::", "agree" if model == mine else "DISAGREE")
+            rc = rc or (0 if model == mine else 1)
+        elif d.get("kind") in ("lean-build", "audit"):
+            print("replay: the proof side did not check:", str(d)[:600])
             rc = 1
     return rc
